@@ -132,7 +132,9 @@ def main():
                 return ctxmod.Ctx.eq(self, a, b)
             return a == b
     args = ", ".join("%s: %s" % (n.replace('.', '_'), ty.split(':')[0]) for n, ty in inputs)
-    pre = " and ".join("0 <= %s < %s" % (n, ty.split(':')[1]) for n, ty in inputs if ':' in ty) or "True"
+    pres = ["0 <= %s < %s" % (n, ty.split(':')[1]) for n, ty in inputs if ':' in ty]
+    pres += ["%s == %s" % (n, n) for n, ty in inputs if ty == 'float']          # finite reals, as in symx (NaN is structural there)
+    pre = " and ".join(pres) or "True"
     src = "def harness(%s) -> bool:\n    '''\n    pre: %s\n    post: _\n    '''\n    return _run(dict(%s))\n" % (
         args, pre, ", ".join("%s=%s" % (n, n) for n, _ in inputs))
 
